@@ -1,6 +1,7 @@
 package props
 
 import (
+	"os"
 	"context"
 	"encoding/binary"
 	"errors"
@@ -20,7 +21,7 @@ import (
 // cliAdapter hides the differences between nclient4 and nclient6 from the scenario engine.
 type cliAdapter interface {
 	name() string
-	start(conn *netsim.Conn, timeout time.Duration, tries int, logDropped bool) error
+	start(conn *netsim.Conn, timeout time.Duration, tries int, logMode int) error
 	close() error
 	// request builds the request of a call; xid selects a transaction id from a small pool.
 	request(xid int, variant int) (req any, wire []byte)
@@ -31,6 +32,23 @@ type cliAdapter interface {
 	dest() net.Addr
 	setDest(sel int) // selects one of a few destination addresses (incl. zoned IPv6 ones) for the following calls
 	classify(err error) string
+}
+
+// quietStderr points os.Stderr at the null device while a client is constructed (the built-in loggers capture the
+// stream at that moment) and returns the function that restores it.
+var devNull *os.File
+
+func quietStderr() func() {
+	if devNull == nil {
+		f, err := os.OpenFile(os.DevNull, os.O_WRONLY, 0)
+		if err != nil {
+			panic(err)
+		}
+		devNull = f
+	}
+	old := os.Stderr
+	os.Stderr = devNull
+	return func() { os.Stderr = old }
 }
 
 // cliSink formats what a logger hands it and discards the text.
@@ -74,12 +92,21 @@ type v4Adapter struct {
 func (a *v4Adapter) setDest(sel int) { a.destSel = sel }
 
 func (a *v4Adapter) name() string { return "nclient4" }
-func (a *v4Adapter) start(conn *netsim.Conn, timeout time.Duration, tries int, logDropped bool) error {
+func (a *v4Adapter) start(conn *netsim.Conn, timeout time.Duration, tries int, logMode int) error {
 	opts := []nclient4.ClientOpt{nclient4.WithTimeout(timeout), nclient4.WithRetry(tries)}
-	if logDropped {
-		// the documented logging configuration with a caller's own Logger (what it prints is discarded)
+	// the documented logging configurations (what they print is discarded): a caller's own Logger in the short and in
+	// the full format, and the two built-in ones, which write to the process's standard error stream
+	switch logMode {
+	case 1:
 		opts = append(opts, nclient4.WithLogger(nclient4.ShortSummaryLogger{Printfer: cliSink{}}))
+	case 2, 4:
+		opts = append(opts, nclient4.WithLogger(nclient4.DebugLogger{Printfer: cliSink{}}))
+	case 3:
+		opts = append(opts, nclient4.WithSummaryLogger())
+	case 5:
+		opts = append(opts, nclient4.WithDebugLogger())
 	}
+	defer quietStderr()()
 	c, err := nclient4.NewWithConn(conn, cliHW, opts...)
 	a.c, a.conn = c, conn
 	return err
@@ -242,11 +269,21 @@ type v6Adapter struct {
 func (a *v6Adapter) setDest(sel int) { a.destSel = sel }
 
 func (a *v6Adapter) name() string { return "nclient6" }
-func (a *v6Adapter) start(conn *netsim.Conn, timeout time.Duration, tries int, logDropped bool) error {
+func (a *v6Adapter) start(conn *netsim.Conn, timeout time.Duration, tries int, logMode int) error {
 	opts := []nclient6.ClientOpt{nclient6.WithTimeout(timeout), nclient6.WithRetry(tries)}
-	if logDropped {
+	switch logMode {
+	case 1:
 		opts = append(opts, nclient6.WithLogDroppedPackets())
+	case 2:
+		opts = append(opts, nclient6.WithDebugLogger())
+	case 3:
+		opts = append(opts, nclient6.WithSummaryLogger())
+	case 4:
+		opts = append(opts, nclient6.WithDebugLogger(), nclient6.WithLogDroppedPackets())
+	case 5:
+		opts = append(opts, nclient6.WithSummaryLogger(), nclient6.WithLogDroppedPackets())
 	}
+	defer quietStderr()()
 	c, err := nclient6.NewWithConn(conn, cliHW, opts...)
 	a.c, a.conn = c, conn
 	return err
@@ -304,6 +341,10 @@ func (a *v6Adapter) request(xid int, variant int) (any, []byte) {
 		}
 		if f&16 != 0 {
 			m.AddOption(&dhcpv6.OptionGeneric{OptionCode: 65010, OptionData: make([]byte, 1300)})
+		}
+		if f&32 != 0 {
+			// an option request in the caller's own order (not ascending, one code twice)
+			m.UpdateOption(dhcpv6.OptRequestedOption(dhcpv6.OptionBootfileURL, dhcpv6.OptionDNSRecursiveNameServer, dhcpv6.OptionDomainSearchList, dhcpv6.OptionSIPServersDomainNameList, dhcpv6.OptionDNSRecursiveNameServer))
 		}
 	}
 	m.TransactionID = xid6(xid)
